@@ -693,7 +693,7 @@ package fsm
 //@   results ctx, err
 //@   requires rcOK(rc) && rcFSM(rc).pebble.v != nil
 //@   ensures [C08.pit.prepare] err == nil && typeIs(rc, *snapshot) ==> typeIs(ctx, *snapshotContext) && asType(ctx, *snapshotContext) != nil && asType(ctx, *snapshotContext).Snapshot != nil && asType(ctx, *snapshotContext).Snapshot.vP == old(rcFSM(rc).pebble.v.vP) && asType(ctx, *snapshotContext).Snapshot.vV == old(rcFSM(rc).pebble.v.vV)
-//@   ensures [C08.pit.checkpoint] err == nil && typeIs(rc, *checkpoint) ==> typeIs(ctx, *checkpointContext) && asType(ctx, *checkpointContext) != nil && rcFSM(rc).pebble.v.ncheckpoint == old(rcFSM(rc).pebble.v.ncheckpoint) + 1 && rcFSM(rc).pebble.v.nflush == old(rcFSM(rc).pebble.v.nflush) + 1
+//@   ensures [C08.pit.checkpoint+C03] err == nil && typeIs(rc, *checkpoint) ==> typeIs(ctx, *checkpointContext) && asType(ctx, *checkpointContext) != nil && rcFSM(rc).pebble.v.ncheckpoint == old(rcFSM(rc).pebble.v.ncheckpoint) + 1 && rcFSM(rc).pebble.v.nflush == old(rcFSM(rc).pebble.v.nflush) + 1
 //@   modifies rcFSM(rc).pebble.v.vP, rcFSM(rc).pebble.v.vV, rcFSM(rc).pebble.v.ncheckpoint, rcFSM(rc).pebble.v.nflush
 //@ refines fsm.snapshotRecoverer.prepare by (*snapshot).prepare
 //@ refines fsm.snapshotRecoverer.prepare by (*checkpoint).prepare
@@ -750,7 +750,7 @@ package fsm
 //@   results ctx, err
 //@   requires p != nil && p.pebble.v != nil
 //@   ensures [C08.pit.prepare] err == nil && p.recoveryType == 0 ==> typeIs(ctx, *snapshotContext) && asType(ctx, *snapshotContext) != nil && asType(ctx, *snapshotContext).Snapshot != nil && asType(ctx, *snapshotContext).Snapshot.vP == old(p.pebble.v.vP) && asType(ctx, *snapshotContext).Snapshot.vV == old(p.pebble.v.vV)
-//@   ensures [C08.pit.checkpoint] err == nil && p.recoveryType == 1 ==> typeIs(ctx, *checkpointContext) && asType(ctx, *checkpointContext) != nil && p.pebble.v.ncheckpoint == old(p.pebble.v.ncheckpoint) + 1
+//@   ensures [C08.pit.checkpoint+C03] err == nil && p.recoveryType == 1 ==> typeIs(ctx, *checkpointContext) && asType(ctx, *checkpointContext) != nil && p.pebble.v.ncheckpoint == old(p.pebble.v.ncheckpoint) + 1
 //@   modifies p.pebble.v.vP, p.pebble.v.vV, p.pebble.v.ncheckpoint, p.pebble.v.nflush
 
 // SaveSnapshot: the stream starts with a header naming the saver's own format, then that format's
@@ -1051,7 +1051,7 @@ package fsm
 //@ func (*checkpoint).prepare
 //@   results ctx, err
 //@   requires c != nil && c.fsm != nil && c.fsm.pebble.v != nil
-//@   ensures [C08.pit.checkpoint] err == nil ==> typeIs(ctx, *checkpointContext) && asType(ctx, *checkpointContext) != nil && c.fsm.pebble.v.ncheckpoint == old(c.fsm.pebble.v.ncheckpoint) + 1 && c.fsm.pebble.v.nflush == old(c.fsm.pebble.v.nflush) + 1
+//@   ensures [C08.pit.checkpoint+C03] err == nil ==> typeIs(ctx, *checkpointContext) && asType(ctx, *checkpointContext) != nil && c.fsm.pebble.v.ncheckpoint == old(c.fsm.pebble.v.ncheckpoint) + 1 && c.fsm.pebble.v.nflush == old(c.fsm.pebble.v.nflush) + 1
 //@   modifies c.fsm.pebble.v.ncheckpoint, c.fsm.pebble.v.nflush
 //@ func tar.NewWriter
 //@   assumed
@@ -1066,7 +1066,7 @@ package fsm
 //@   params c, ctx, w, stopc
 //@   results err
 //@   requires c != nil && c.fsm != nil && c.fsm.fs != nil && w != nil && typeIs(ctx, *checkpointContext) && asType(ctx, *checkpointContext) != nil
-//@   before pebble.(*DB).Checkpoint assert [C08.save.nocheckpoint] false
-//@   before pebble.(*DB).Flush assert [C08.save.noflush] false
+//@   before pebble.(*DB).Checkpoint assert [C08.save.nocheckpoint+C03] false
+//@   before pebble.(*DB).Flush assert [C08.save.noflush+C03] false
 //@   modifies family(G_any_sdata), family(G_any_slen), family(G_any_nmsg), family(G_any_msg), family(G_any_rest)
 //@   loop 0 invariant tw != nil && -1 <= rangeindex && rangeindex < len(list) && c.fsm == old(c.fsm) && c.fsm.fs == old(c.fsm.fs)
